@@ -74,6 +74,17 @@ def run(tier, seed, replay):
     paths4, left4 = graph4.cover(seed=seed, max_len=40, max_paths=None if big else 200, prefer=lambda e: e[1]["n"] in ("Forged", "Move", "DlSendBack"))
     n4, s4, d4 = udprelay.replay(v, binary, [graph4.behaviour(p) for p in paths4], [{"server": "ss2022", "batchMode": "sendmmsg", "natTimeout": "61s"}], seed,
                                  "session relay replay")
+    # (4) replies: several replies in flight, one of them too big for the client's path (dropped by the server packer); the
+    #     recvmmsg path reads whatever has arrived as one batch, the generic path one datagram at a time
+    for batch, rvars in (("TRUE", [{"server": "socks5", "batchMode": "sendmmsg", "natTimeout": "30s"}, {"server": "ss2022", "batchMode": "sendmmsg", "natTimeout": "61s"}]),
+                         ("FALSE", [{"server": "socks5", "batchMode": "no", "natTimeout": "30s"}])):
+        g6, _ = udprelay.model(dict(Sess='{"s1"}', Targets='{"ip"}', Domains="{}", Rejected="{}", MaxSend=1, ChanCap=1, MaxReply=3, MaxTimer=0, Batch=batch),
+                               props=False, edges=True)
+        graph6 = udprelay.urgent_filter(vlib.Graph(g6), drop=("StopBegin",))
+        paths6, left6 = graph6.cover(seed=seed, max_len=40, max_paths=None if big else 150)
+        n6, s6, d6 = udprelay.replay(v, binary, [graph6.behaviour(p) for p in paths6], rvars, seed, "reply batch replay")
+        v.coverage["replay_graphs"].append({"relay": "replies, Batch=" + batch, "distinct": g6.distinct, "edges": len(graph6.edges), "paths": len(paths6), "uncovered_edges": left6})
+        n1, s1, d1 = n1 + n6, s1 + s6, max(d1, d6)
     v.coverage["replay_graphs"] += [{"relay": "session (ss2022), move+forged", "distinct": g3.distinct, "edges": len(graph3.edges), "paths": len(paths3), "uncovered_edges": left3},
                                     {"relay": "session (ss2022) sendmmsg, 2 sessions", "distinct": g4.distinct, "edges": len(graph4.edges), "paths": len(paths4), "uncovered_edges": left4}]
     n1, s1, d1 = n1 + n3 + n4, s1 + s3 + s4, max(d1, d3, d4)
